@@ -12,11 +12,14 @@
      nDang (prio cpu mem)*
      [annoKind aCpuReclaim aMemReclaim aCpuThr aMemThr lblCpuKind lblCpuH lblMemKind lblMemH]
        optional: the node's colocation-strategy annotation (1 well-formed, 2/3 malformed; -1 = field
-       absent) and reclaim-ratio labels (kind 1 = "h/100"); the strategy fields above are the cluster
+       absent) and reclaim-ratio labels (kinds: Model.label_scale); the strategy fields above are the cluster
        strategy and the effective one is Model.resolve_strategy (real: sloconfig.GetNodeColocationStrategy)
-   observable: run(base) ++ run(perturbed), each as documented at Model.run_batch *)
+     [tpKind tpCPU tpMem]
+       optional, after the nine integers above: the node's thirdPartyAllocations annotation (Publish.tp_of)
+   observable: run(base) ++ run(perturbed), each as documented at Model.run_batch, the published amounts
+   reduced by the third-party allocations (Publish.apply_tp) *)
 From Coq Require Import List ZArith Bool.
-From Verif Require Import Lib.Wire C09.Model C09.Spec.
+From Verif Require Import Lib.Wire C09.Model C09.Spec C09.Publish.
 Import ListNotations.
 Open Scope Z_scope.
 
@@ -31,7 +34,7 @@ Definition dec_pod (l : list Z) : pod * list Z :=
   | _ => (mkPod 4 0 (-1) 0 1 0 0 false 0 0 0 0, [])
   end.
 
-Definition decode_b (l : list Z) : binput :=
+Definition decode_bt (l : list Z) : binput * tpalloc :=
   match l with
   | cp :: mp :: cr :: mr :: ct :: mt :: dg :: age :: cc :: cm :: ac :: am ::
     af :: anc :: anm :: anr :: sc :: sm :: t =>
@@ -43,10 +46,15 @@ Definition decode_b (l : list Z) : binput :=
                 | ak :: a1 :: a2 :: a3 :: a4 :: k1 :: h1 :: k2 :: h2 :: _ => mkNodeCfg ak a1 a2 a3 a4 k1 h1 k2 h2
                 | _ => nodecfg0
                 end in
-      mkB (resolve_strategy (mkStrategy cp mp cr mr ct mt dg) nc)
-          age cc cm ac am (zb af) anc anm anr sc sm zs apps pods dang
-  | _ => mkB (mkStrategy 0 0 0 0 (-1) (-1) 1) (-1) 0 0 0 0 false 0 0 0 0 0 [] [] [] []
+      let tp := match t4 with
+                | _ :: _ :: _ :: _ :: _ :: _ :: _ :: _ :: _ :: tk :: tc :: tm :: _ => tp_of tk tc tm
+                | _ => None
+                end in
+      (mkB (resolve_strategy (mkStrategy cp mp cr mr ct mt dg) nc)
+           age cc cm ac am (zb af) anc anm anr sc sm zs apps pods dang, tp)
+  | _ => (mkB (mkStrategy 0 0 0 0 (-1) (-1) 1) (-1) 0 0 0 0 false 0 0 0 0 0 [] [] [] [], None)
   end.
+Definition decode_b (l : list Z) : binput := fst (decode_bt l).
 
 Fixpoint bump (k : nat) (delta : Z) (l : list Z) : list Z :=
   match l, k with
@@ -54,15 +62,17 @@ Fixpoint bump (k : nat) (delta : Z) (l : list Z) : list Z :=
   | x :: t, O => (x + delta) :: t
   | x :: t, S k' => x :: bump k' delta t
   end.
-Definition decode2 (inp : list Z) : binput * binput :=
+Definition decode2t (inp : list Z) : (binput * tpalloc) * (binput * tpalloc) :=
   match inp with
   | k :: delta :: t =>
-      (decode_b t, if k <? 0 then decode_b t else decode_b (bump (Z.to_nat k) delta t))
-  | _ => (decode_b [], decode_b [])
+      (decode_bt t, if k <? 0 then decode_bt t else decode_bt (bump (Z.to_nat k) delta t))
+  | _ => (decode_bt [], decode_bt [])
   end.
+Definition decode2 (inp : list Z) : binput * binput :=
+  let '(a, b) := decode2t inp in (fst a, fst b).
 
 Definition run_case (inp : list Z) : list Z :=
-  let '(a, b) := decode2 inp in run_batch a ++ run_batch b.
+  let '((a, ta), (b, tb)) := decode2t inp in apply_tp ta (run_batch a) ++ apply_tp tb (run_batch b).
 
 Definition obs_len (obs : list Z) : nat :=
   match obs with
@@ -71,9 +81,10 @@ Definition obs_len (obs : list Z) : nat :=
   end.
 
 (* property decided on the IMPLEMENTATION's observable: bounds on both runs, then the
-   metamorphic clauses (5: consumption raised, 6: reclaim threshold lowered) between them *)
+   metamorphic clauses (5: consumption raised, 6: reclaim threshold lowered, 7: published amounts when a
+   consumption input or the third-party allocation is raised) between them *)
 Definition prop_case (inp obs : list Z) : Z :=
-  let '(a, b) := decode2 inp in
+  let '((a, ta), (b, tb)) := decode2t inp in
   let oa := firstn (obs_len obs) obs in
   let ob := skipn (obs_len obs) obs in
   let ca := batch_code false a oa in
@@ -82,6 +93,7 @@ Definition prop_case (inp obs : list Z) : Z :=
   else if negb (cb =? 0) then cb
   else if negb (antitone_code a b oa ob =? 0) then 5
   else if negb (reclaim_code a b oa ob =? 0) then 6
+  else if negb (pub_antitone_code a b ta tb oa ob =? 0) then 7
   else if negb (batch_code true a oa =? 0) then batch_code true a oa
   else batch_code true b ob.
 
